@@ -150,7 +150,8 @@ def make_plan(prop, seed):
         adv["p_instr"] = r.choice([0.0, 0.05, 0.2])
         mix = "both"
         if r.random() < 0.3:
-            spec["dispatcher"]["valid_dispatch_states"] = r.choice([["idle", "repositioning", "reservebase"], ["idle"], ["idle", "repositioning", "dispatchbase"]])
+            spec["dispatcher"]["valid_dispatch_states"] = r.choice([["idle", "repositioning", "reservebase"], ["idle"], ["idle", "repositioning", "dispatchbase"],
+                                                              ["idle", "repositioning", "reservebase", "chargingbase"], ["idle", "chargingbase", "chargingstation"]])
     elif prop == "C16":
         rs["step_recorder"] = True
         rs["buggify"] = r.random() < 0.4
